@@ -63,7 +63,7 @@ CLAIMED = {
         "alignments 0/1/2/4/64/4096/65535/non-powers, large_file, after prior entries, on appended archives) compared "
         "byte for byte with the writer model; oracle: data_start % align = 0 as seen by the crate's own reader and by the "
         "strict validator, extras recovered verbatim from local and central records.",
-   note="Trusted: Coq kernel, extraction+driver, harness, strictzip.py.",
+   note="Trusted: Coq kernel, extraction+driver, harness, strictzip.py. PARTIAL: the reader-side theorems cover stored, unencrypted, non-large entries on a well-behaved sink; the central-only part of user extra data, large_file / compressed / encrypted entries are decided by the byte-exact correspondence.",
    technique="Coq proof (alignment arithmetic for all offsets and alignments, extra-data validation, aligned entry and user extra data as the reader sees them) + byte-exact writer-model correspondence",
    design="8 (C17)"),
  "C13": dict(
@@ -86,7 +86,7 @@ CLAIMED = {
         "round's bytes equal the model's; oracle after every round through by_index_raw on old and new archive: old "
         "entries unchanged and in order (name, method, sizes, CRC, time, mode, stored bytes, header offset; byte span header..data identical in place), new entries "
         "follow and decode to what was written, comment kept unless replaced (found and fixed D19: stale end record).",
-   note="Trusted: Coq kernel, extraction+driver, harness, genzip.py/zipfile as base producers, CPython zlib/bz2. PARTIAL: the reader-level theorem over appended archives (old entries listed first with the same fields, for all histories) is not proved end to end; multi-round preservation of the listing is decided per generated history.",
+   note="Trusted: Coq kernel, extraction+driver, harness, genzip.py/zipfile as base producers, CPython zlib/bz2. PARTIAL: that the writer's list after any call sequence is old entries then new ones is a theorem (C13_listing_old_then_new); the reader-level statement over the finished bytes of appended archives (same fields, for all multi-round histories) composes it with the finish/open round trip of C01 only for archives the model's hypotheses cover, and is otherwise decided per generated history.",
    technique="Coq proof (state established by new_append, re-emitted record round trip, old-bytes invariant and old-then-new listing over all call sequences) + byte-exact multi-round append correspondence with by_index_raw oracle",
    design="8 (C13)"),
  "C14": dict(
@@ -147,9 +147,12 @@ CLAIMED = {
         "call fails for EVERY k below the failure-free call count and the crate's per-call results and final sink bytes "
         "equal the model's under the same plan (incl. the encoders' drop-time retry); reader scenarios (all methods, ZIP64, "
         "ZipCrypto, AE-1/2, data descriptors, prefix, nested and concatenated archives, fake end record in the comment) and "
-        "open-for-append scenarios with the k-th source/device call failing for every k; oracle everywhere: no panic now or "
-        "later, and either some call reported an error or the outcome equals the failure-free one (found and fixed D20).",
-   note="Trusted: Coq kernel, extraction+driver, harness (fault-injecting sink/source/device), genzip.py. PARTIAL: for the writer 'a failure is never swallowed' (error-or-identical) is decided per enumerated fault, not proved; faults during open / new_append (directory parsing over a failing source) and in the AES / decompressing layers are decided on the implementation by the oracle only.",
+        "open-for-append scenarios with the k-th source/device call failing for every k; the streaming API (visit, streamed "
+        "reads to the end, entries dropped unread) with the k-th read failing for every k; oracle everywhere: no panic now or "
+        "later, and either some call reported an error or the outcome equals the failure-free one (found and fixed D20 and "
+        "D23; known finding D24: an entry of read_zipfile_from_stream dropped unread while the skip in Drop hits a "
+        "transient failure, over a stored nested archive).",
+   note="Trusted: Coq kernel, extraction+driver, harness (fault-injecting sink/source/device), genzip.py. PARTIAL: the writer theorems (no panic, failure surfaces in its call, error or identical) are about the writer model, whose tie to the crate under faults is the per-fault enumeration; Drop, which ignores errors by design, is outside the error-or-identical theorem; faults during open / new_append (directory parsing over a failing source), over the streaming API and in the AES / decompressing layers are decided on the implementation by the oracle only.",
    technique="Coq proof (no writer call panics under any failure plan: state-machine invariant) + exhaustive single-fault enumeration compared call-by-call with the plan-driven writer model",
    design="8 (C11), 13"),
  "C20": dict(
@@ -196,11 +199,14 @@ CLAIMED = {
         "the same for the seekable reader on the same bytes, so both agree entry by entry (local-header codec round trip "
         "incl. the writer's header patch, drain-on-drop positioning).  Also: an entry handle is only produced for "
         "unencrypted, sized, decodable entries (others are an error, never data); after a handle is dropped the stream "
-        "position is the end of its compressed data whatever was consumed.  Agreement on FOREIGN layouts and the visitor "
-        "contract (files in order, then one metadata record per entry, fix D6) are carried by the correspondence: "
+        "position is the end of its compressed data whatever was consumed.  THE METADATA PHASE OF visit() "
+        "(C10_visit_metadata_agrees): for ANY bytes on which the local-header walk stops at the directory start and the "
+        "seekable reader parses n >= 1 central records there, visit() succeeds and delivers exactly the seekable reader's "
+        "records, one per entry, in order, equal in every field except the two positional ones.  Agreement on FOREIGN "
+        "layouts for the file phase is carried by the correspondence: "
         "streamed sequences under cyclic consumption patterns {0,1,k,all} compared with the model and, entry by entry, "
         "with the seekable reader on the same bytes; refused archives; damaged and truncated streams.",
-   note="Trusted: Coq kernel, extraction+driver, harness, genzip.py. PARTIAL: the agreement theorem covers archives of stored entries written by the writer model on a well-behaved sink; compressed entries, foreign producers, data descriptors and the metadata phase of visit() are decided per generated archive.",
+   note="Trusted: Coq kernel, extraction+driver, harness, genzip.py. PARTIAL: the agreement theorem covers archives of stored entries written by the writer model on a well-behaved sink; compressed entries, foreign producers and data descriptors are decided per generated archive (the metadata phase of visit() is a theorem for all inputs).",
    technique="Coq proof (stream reader = written entries = seekable reader on writer-rendered archives; position and refusal lemmas) + differential correspondence stream vs model vs seekable reader",
    design="8 (C10), 13"),
  "C04": dict(
